@@ -5,6 +5,7 @@ package kern
 // K-NS, K-PROC, K-SOCK, K-FAULT) and listed in the evidence files of the checks using it.
 
 import (
+	"strings"
 	"syscall"
 	"unsafe"
 
@@ -115,7 +116,7 @@ type Kernel struct {
 	NextFile        int
 	FaultsLeft      int    // K-FAULT: how many more calls may fail
 	FaultAt         string // site of the injected fault ("" none), as "<site>#<occurrence>"
-	FaultOnly       string // when set, only this site may fail
+	FaultOnly       string // when set, only these sites (comma separated) may fail
 	FaultSeen       map[string]int
 	FaultProc       int
 	FaultErrno      syscall.Errno
@@ -212,7 +213,7 @@ func (p *Proc) LastIndexOf(name string) int {
 
 // K-FAULT: a call site may fail with an arbitrary errno when the harness enabled faults.
 func (k *Kernel) fault(site string) (syscall.Errno, bool) {
-	if k.FaultsLeft <= 0 || (k.FaultOnly != "" && k.FaultOnly != site) {
+	if k.FaultsLeft <= 0 || (k.FaultOnly != "" && !strings.Contains(","+k.FaultOnly+",", ","+site+",")) {
 		return 0, false
 	}
 	if k.FaultSeen == nil {
